@@ -3,6 +3,7 @@
 From Coq Require Import List Bool Arith NArith ZArith Lia Sorting.Sorted.
 Import ListNotations.
 From C13 Require Import Model ProofsGlob ProofsKmp ProofsWild ProofsSearch ProofsTable ProofsSealed.
+From C13 Require Import ModelBlock ProofsBlock ProofsProvider ProofsWriter.
 
 (* The executable specification [glob] (what every case is judged against) is the declarative
    glob: text terms stand for themselves, every '*' for an arbitrary string. *)
@@ -149,3 +150,104 @@ Proof.
   split; [|vm_compute; split; reflexivity].
   repeat (constructor; [|repeat constructor; reflexivity]). constructor.
 Qed.
+
+(* ================================================================ packed token blocks, providers *)
+
+(* For every list of fields (name, fieldSize, tokens), every RegularBlockSize [reg], every first
+   block index and every width w >= 1 of the length field (the code: w = 4 = W32): the generator
+   (chunking, StartTID) never runs out of fuel; for EVERY table entry writeTokensBlocks emits,
+   Block.unpack of the physical block it names succeeds and GetValByTID(tid) returns, for every
+   tid in [StartTID, lastTID], exactly the token with that TID in dictionary order (the tid-th
+   token of the concatenated fields) - in particular no out-of-range read (None = panic).
+   Hypotheses: token lengths below the separator value (2^32-1), physical blocks below 2^32 bytes
+   (offsets are stored as uint32). *)
+Theorem C13_block_unpack_exact : forall w reg b0 (fields : list (bytes * N * list bytes)),
+  1 <= w ->
+  Forall (fun x => Forall (fun t => (blen t < maxv w)%N) (snd x)) fields ->
+  exists blocks, gen_blocks reg fields 1 = Some blocks /\
+  let st := write_blocks w reg b0 blocks in
+  let dict := concat (map (fun x => snd x) fields) in
+  Forall (fun P => (blen P < 256 ^ N.of_nat w)%N) (ws_done st) ->
+  forall fe, In fe (ws_table st) ->
+    let e := snd fe in
+    let P := disk_of b0 (ws_done st) (e_block_index e) in
+    (1 <= e_start_tid e)%Z /\ (1 <= e_val_count e)%Z /\ (get_last_tid e <= Z.of_nat (length dict))%Z /\
+    exists offs, unpack w P = UOk offs /\
+      forall tid, (e_start_tid e <= tid <= get_last_tid e)%Z ->
+        get_val w e P offs tid = Some (nth (Z.to_nat (tid - 1)) dict []).
+Proof. exact (fun w reg b0 fields Hw => block_unpack_exact w Hw reg b0 fields). Qed.
+Print Assumptions C13_block_unpack_exact.
+
+(* Block.unpack on ARBITRARY bytes.
+   Full statement (REFUTED by the faithful model, see C13_block_unpack_total_refuted):
+     forall data, match unpack W32 data with UOk _ | UErr => True | UPanic | UFuel => False end.
+   Proved part: the walk always terminates; when it answers Ok every recorded offset names a
+   record (length field and payload) inside the block; it panics only when it reaches a remainder
+   of 1..w-1 bytes (binary.LittleEndian.Uint32 / data[4:] on fewer than 4 bytes). *)
+Theorem C13_block_unpack_total_partial : forall w data, 1 <= w ->
+  match unpack w data with
+  | UOk offs => exists os, offs = flat_map (enc w) os /\
+      Forall (fun o => (o + N.of_nat w + dec (firstn w (skipn (N.to_nat o) data)) <= blen data)%N) os
+  | UErr => True
+  | UPanic => exists p sfx, data = p ++ sfx /\ 0 < length sfx < w
+  | UFuel => False
+  end.
+Proof. exact (fun w data Hw => unpack_total w Hw data). Qed.
+Print Assumptions C13_block_unpack_total_partial.
+
+(* a block cut one byte short: the real Block.unpack panics (index out of range) instead of
+   returning its error; replayed on the real code by the harness (class unpack-malformed,
+   fingerprint panic:block-unpack-short-tail) *)
+Theorem C13_block_unpack_total_refuted : exists data, unpack W32 data = UPanic.
+Proof. exists [1; 0; 0; 0; 97; 255; 255; 255]%N. vm_compute. reflexivity. Qed.
+Print Assumptions C13_block_unpack_total_refuted.
+
+(* token.Provider: for every entry list that is a contiguous monotone cover whose blocks serve
+   the token sequence tokf, EVERY call sequence of GetToken with TIDs in [FirstTID, LastTID] -
+   any order, from any valid provider state (nothing cached, or any cached block: the fast path
+   is hit or missed in every state) - returns tokf tid for each call and keeps the state valid. *)
+Theorem C13_provider_get_token : forall w disk entries (tokf : Z -> bytes),
+  cover entries -> serves w disk entries tokf ->
+  pvalid w disk entries p_init /\
+  forall tids st, pvalid w disk entries st ->
+    Forall (fun tid => (first_tid entries <= tid <= last_tid_p entries)%Z) tids ->
+    exists st', get_tokens w disk entries st tids = Some (map tokf tids, st') /\ pvalid w disk entries st'.
+Proof.
+  exact (fun w disk entries tokf C S =>
+           conj (pvalid_init w disk entries (proj1 C)) (provider_get_tokens w disk entries tokf C S)).
+Qed.
+Print Assumptions C13_provider_get_token.
+
+(* ---------------------------------------------------------------- non-vacuity (blocks) *)
+
+Definition f_ := 102%N.
+Definition g_ := 103%N.
+
+(* the hypotheses of C13_block_unpack_exact hold for a two-field dictionary; both fields share one
+   physical block (the second entry starts in the middle of it) *)
+Example C13_block_exact_nonvacuous :
+  let fields := [([f_], 2%N, [[a]; [b]]); ([g_], 0%N, [[]])] in
+  Forall (fun x => Forall (fun t => (blen t < maxv W32)%N) (snd x)) fields /\
+  Forall (fun P => (blen P < 256 ^ N.of_nat W32)%N)
+         (ws_done (write_blocks W32 16384 0 (match gen_blocks 16384 fields 1 with Some bl => bl | None => [] end))) /\
+  map (fun fe => (e_start_index (snd fe), e_start_tid (snd fe), e_val_count (snd fe), e_block_index (snd fe)))
+      (ws_table (write_blocks W32 16384 0 (match gen_blocks 16384 fields 1 with Some bl => bl | None => [] end)))
+  = [(0, 1, 2, 0); (2, 3, 1, 0)]%Z.
+Proof.
+  cbv zeta. split; [|split].
+  - repeat (constructor; try (vm_compute; reflexivity)).
+  - vm_compute. repeat (constructor; try reflexivity).
+  - vm_compute. reflexivity.
+Qed.
+
+(* the length hypothesis is necessary: with a 1-byte length field (separator 255) a token of
+   length 255 is taken for the separator and TID 1 reads back as the empty token; the same
+   collision needs a 4 GiB token at the real width *)
+Example C13_block_separator_collision :
+  let t := repeat 0%N 255 in
+  let P := pack_tokens 1 [t] in
+  let e := {| e_start_index := 0; e_start_tid := 1; e_block_index := 0; e_val_count := 1;
+              e_min_val := []; e_max_val := [] |} in
+  blen t = maxv 1 /\
+  match unpack 1 P with UOk offs => get_val 1 e P offs 1 = Some [] | _ => False end.
+Proof. vm_compute. split; reflexivity. Qed.
